@@ -420,6 +420,9 @@ static void enumerate_unit(const nmc::Tier& t, const nmc::Sink& emit) {
             for (long ord = 1; ord <= 2; ord++) for (long kd = 0; kd <= 1; kd++) { emit(Case("pairwise_distance", {s, p, {ord, kd}})); if (p != s) emit(Case("pairwise_distance", {p, s, {ord, kd}})); }
             long d = (long)std::max(s.size(), p.size());
             for (long a = -d; a < d; a++) { emit(Case("cosine_similarity", {s, p, {a}})); if (p != s) emit(Case("cosine_similarity", {p, s, {a}})); }
+            // the same with an explicit eps = 10 that is ABOVE some of the norms along the axis: the clamp max(||x||, eps) per operand becomes observable
+            // (seeded change m17c clamped the product of the norms once; with the default eps and ordinary data no clamp is ever active)
+            for (long a = -d; a < d; a++) { emit(Case("cosine_similarity", {s, p, {a, 1}})); if (p != s) emit(Case("cosine_similarity", {p, s, {a, 1}})); }
         }
     });
     for (int ld = 0; ld <= 2; ld++) nmc::each_shape(ld, 3, [&](const L& lead) {
@@ -463,9 +466,11 @@ static Outcome execute_unit(const Case& c) {
     }
     if (c.op == "cosine_similarity") {
         int axis = (int)c.a[2][0];
-        ROpt want = ref::cosine_similarity(a, b, axis, CS_EPS);
+        const bool big_eps = c.a[2].size() > 1 && c.a[2][1] == 1;
+        ROpt want = ref::cosine_similarity(a, b, axis, big_eps ? 10.0 : CS_EPS);
         if (!want) return Outcome::bad("wrong", "harness: case outside the domain was enumerated");
         auto bs = ref::broadcast_shapes({sa, sb}); long d = (long)bs->size(); long ax = axis < 0 ? axis + d : axis;
+        if (big_eps) return both(view::cosine_similarity(A, Bm, axis, 10.0), na::cosine_similarity(A, Bm, axis, 10.0), want, (*bs)[(size_t)ax] >= 2, 1e-9);
         return both(view::cosine_similarity(A, Bm, axis), na::cosine_similarity(A, Bm, axis), want, (*bs)[(size_t)ax] >= 2, 1e-9);
     }
     nmc::die("unknown op");
